@@ -34,7 +34,32 @@ Definition zoneinfo_dirs : list bytes :=
 Fixpoint jassoc {A} (k : bytes) (l : list (bytes * A)) : option A :=
   match l with [] => None | (k', v) :: r => if bytes_eqb k k' then Some v else jassoc k r end.
 
-Record machine := { m_files : list (bytes * option Z); m_rules : list (bytes * Z); m_iana : option bytes }.
+(** A zone of the machine description: a fixed offset, or [JStep o1 (y, ord, secs) o2]: offset o1
+    before the instant (y, ord, secs) UTC and the larger offset o2 from then on. *)
+Inductive jzone := JFixed (off : Z) | JStep (o1 : Z) (y ord secs : Z) (o2 : Z).
+Record machine := { m_files : list (bytes * option jzone); m_rules : list (bytes * Z); m_iana : option bytes }.
+
+Definition before3 (a b : Z * Z * Z) : bool :=     (* lexicographic < on (year, ordinal, second of day) *)
+  let '(y1, o1, s1) := a in let '(y2, o2, s2) := b in
+  if y1 =? y2 then (if o1 =? o2 then s1 <? s2 else o1 <? o2) else y1 <? y2.
+Definition same3 (a b : Z * Z * Z) : bool :=
+  let '(y1, o1, s1) := a in let '(y2, o2, s2) := b in (y1 =? y2) && (o1 =? o2) && (s1 =? s2).
+
+(** The answers a zone may give for one conversion.  Instant -> offset in force at that instant.
+    Wall-clock time -> the offsets under which some instant shows that wall-clock time: with a
+    forward step the readings from T+o1 up to (not including) T+o2 do not occur; at the first
+    skipped second itself either answer is accepted (boundary second). *)
+Definition zone_answers (z : jzone) (local : bool) (d : Z * Z * Z) : list val :=
+  match z with
+  | JFixed off => if local then [VTup [VInt off]] else [VInt off]
+  | JStep o1 y ord secs o2 =>
+      if local then
+        if before3 d (y, ord, secs + o1) then [VTup [VInt o1]]
+        else if same3 d (y, ord, secs + o1) then [VTup [VInt o1]; VTup []]
+        else if before3 d (y, ord, secs + o2) then [VTup []]
+        else [VTup [VInt o2]]
+      else if before3 d (y, ord, secs) then [VInt o1] else [VInt o2]
+  end.
 
 Definition blank (c : Z) : bool := (c =? 32) || ((9 <=? c) && (c <=? 13)).
 Fixpoint drop_blanks (s : bytes) : bytes :=
@@ -44,18 +69,18 @@ Definition strip (s : bytes) : bytes := rev (drop_blanks (rev (drop_blanks s))).
 Definition opt_list {A} (o : option A) : list A := match o with Some a => [a] | None => [] end.
 
 (* "the system zone and finally UTC" *)
-Definition system_zone (m : machine) : list Z :=
+Definition system_zone (m : machine) : list jzone :=
   let a := match jassoc B"/etc/localtime" (m_files m) with Some (Some z) => [z] | _ => [] end in
   let b := match m_iana m with
            | Some n => match jassoc (B"/usr/share/zoneinfo/" ++ n) (m_files m) with Some (Some z) => [z] | _ => [] end
            | None => [] end in
-  match a ++ b with [] => [0] | l => l end.
+  match a ++ b with [] => [JFixed 0] | l => l end.
 
 (* the zones the first sentence allows for a value of TZ *)
-Definition zones_for (m : machine) (v : option bytes) : list Z :=
+Definition zones_for (m : machine) (v : option bytes) : list jzone :=
   match v with
   | None => match jassoc B"/etc/localtime" (m_files m) with Some (Some z) => [z] | _ => system_zone m end
-  | Some [] => [0]
+  | Some [] => [JFixed 0]
   | Some s =>
       let colon := match s with 58 :: _ => true | _ => false end in
       let name := match s with 58 :: r => r | _ => s end in
@@ -67,25 +92,26 @@ Definition zones_for (m : machine) (v : option bytes) : list Z :=
       | _ :: _ => flat_map (fun h => match h with Some z => [z] | None => system_zone m end) hits
       | [] =>
           match (if colon then None else jassoc s (m_rules m)) with
-          | Some z => [z]
+          | Some z => [JFixed z]
           | None => match jassoc (strip name) (m_rules m) with
-                    | Some z => z :: system_zone m
+                    | Some z => JFixed z :: system_zone m
                     | None => system_zone m
                     end
           end
       end
   end.
 
-Definition mem_z (z : Z) (l : list Z) : bool := existsb (fun y => y =? z) l.
+Definition mem_val (v : val) (l : list val) : bool := existsb (val_eqb v) l.
 
 (* steps: 0 set, 1 unset, 3 conversion (direction), 4 spawn, 5 join; 2/6/7 only move clocks *)
-Inductive jstep := JSet (v : bytes) | JUnset | JConv (local : bool) | JSpawn | JJoin | JOther.
+Inductive jstep := JSet (v : bytes) | JUnset | JConv (local : bool) (d : Z * Z * Z) | JSpawn | JJoin | JOther.
 Definition jdec_step (v : val) : option jstep :=
   match v with
   | VTup [VInt 0; VStr b] => Some (JSet b)
   | VTup [VInt 1] => Some JUnset
   | VTup [VInt 2; VInt _] => Some JOther
-  | VTup [VInt 3; VInt d; VTup _] => if d =? 0 then Some (JConv false) else if d =? 1 then Some (JConv true) else None
+  | VTup [VInt 3; VInt d; VTup [VInt y; VInt o; VInt sec; VInt _]] =>
+      if d =? 0 then Some (JConv false (y, o, sec)) else if d =? 1 then Some (JConv true (y, o, sec)) else None
   | VTup [VInt 4] => Some JSpawn
   | VTup [VInt 5] => Some JJoin
   | VTup [VInt 6; VInt ms] => if 0 <=? ms then Some JOther else None
@@ -110,11 +136,19 @@ Fixpoint jdec_zip (steps times : list val) : option (list (jstep * reading)) :=
   | _, _ => None
   end.
 
-Fixpoint jdec_files (l : list val) : option (list (bytes * option Z)) :=
+Definition jdec_zone (v : val) : option (option jzone) :=
+  match v with
+  | VNone => Some None
+  | VSome (VInt z) => Some (Some (JFixed z))
+  | VSome (VTup [VInt o1; VInt y; VInt ord; VInt secs; VInt o2]) =>
+      if (o1 <? o2) && (0 <=? secs + o1) && (secs + o2 <? 86400) then Some (Some (JStep o1 y ord secs o2)) else None
+  | _ => None
+  end.
+Fixpoint jdec_files (l : list val) : option (list (bytes * option jzone)) :=
   match l with
   | [] => Some []
-  | VTup [VStr p; VNone] :: r => match jdec_files r with Some t => Some ((p, None) :: t) | None => None end
-  | VTup [VStr p; VSome (VInt z)] :: r => match jdec_files r with Some t => Some ((p, Some z) :: t) | None => None end
+  | VTup [VStr p; z] :: r =>
+      match jdec_zone z, jdec_files r with Some e, Some t => Some ((p, e) :: t) | _, _ => None end
   | _ => None
   end.
 Fixpoint jdec_rules (l : list val) : option (list (bytes * Z)) :=
@@ -145,7 +179,7 @@ Definition gap_decided (a0 a1 b0 b1 : Z) : bool :=
 Fixpoint later_decided (a : reading) (l : list (jstep * reading)) : bool :=
   match l with
   | [] => true
-  | (JConv _, b) :: r =>
+  | (JConv _ _, b) :: r =>
       gap_decided (r_w0 a) (r_w1 a) (r_w0 b) (r_w1 b) && gap_decided (r_m0 a) (r_m1 a) (r_m0 b) (r_m1 b)
       && later_decided a r
   | _ :: r => later_decided a r
@@ -153,7 +187,7 @@ Fixpoint later_decided (a : reading) (l : list (jstep * reading)) : bool :=
 Fixpoint all_decided (l : list (jstep * reading)) : bool :=
   match l with
   | [] => true
-  | (JConv _, a) :: r => later_decided a r && all_decided r
+  | (JConv _ _, a) :: r => later_decided a r && all_decided r
   | _ :: r => all_decided r
   end.
 
@@ -176,7 +210,7 @@ Fixpoint walk (m : machine) (l : list (jstep * reading)) (idx : Z) (cur : option
           | p :: rest => walk m r (idx + 1) cur ended p rest outs
           | [] => walk m r (idx + 1) cur ended first stack outs
           end
-      | JConv local =>
+      | JConv local d =>
           let olds :=
             match first with
             | None => []
@@ -184,23 +218,14 @@ Fixpoint walk (m : machine) (l : list (jstep * reading)) (idx : Z) (cur : option
                 flat_map (fun '(v, e, m1) =>
                             if (fi <? e) && negb (G <=? r_m0 t - m1) then zones_for m v else []) ended
             end in
-          let allowed := zones_for m cur ++ olds in
+          let allowed := flat_map (fun z => zone_answers z local d) (zones_for m cur ++ olds) in
           match outs with
           | [] => JBad B"fewer-answers-than-conversions"
           | o :: outs' =>
-              let got := match local, o with
-                         | false, VInt z => Some z
-                         | true, VTup [VInt z] => Some z
-                         | _, _ => None
-                         end in
-              match got with
-              | None => JBad (B"conversion-" ++ dec_of_Z idx ++ B"-gave-no-single-offset")
-              | Some z =>
-                  if mem_z z allowed
-                  then walk m r (idx + 1) cur ended (match first with None => Some idx | f => f end) stack outs'
-                  else JBad (B"conversion-" ++ dec_of_Z idx ++ B"-used-offset-" ++ dec_of_Z z
-                             ++ B"-allowed-" ++ sep_concat B"/" (map dec_of_Z allowed))
-              end
+              if mem_val o allowed
+              then walk m r (idx + 1) cur ended (match first with None => Some idx | f => f end) stack outs'
+              else JBad (B"conversion-" ++ dec_of_Z idx ++ B"-answered-" ++ print_val o
+                         ++ B"-allowed-" ++ sep_concat B"/" (map print_val allowed))
           end
       end
   end.
